@@ -70,53 +70,51 @@ example : (fsEffects.filter (fun e => Proofs.FsTable.mutatingMode e.mode && !Pro
 example : (fsEffects.filter (fun e => e.api == .open && e.prov.contains .EVIDENCE)).length > 0 := by decide
 
 /-- the validation phase of `main` (everything before the library is called) creates at most the log file,
-the output directory and the per-file sub-directory -/
+the output directory and the per-file sub-directory (the directories only after every check has passed, see
+C12.refused_before_write) -/
 theorem validation_creates_only_log_and_directories (o : Opts) (i : Input) (w : World) :
     ∀ e ∈ (validate o i w).effects,
       e = .logFile o.logFile ∨ (e = .mkdir o.directory ∧ w.pathExists o.directory = false)
         ∨ (e = .mkdir (Proofs.Cli.subDir o i) ∧ i.multi = true) := by
   exact Proofs.Cli.validation_effects_bounded o i w
 
-/-- FULL STATEMENT (false of the code): whatever the prefix and the entry names, every file a run writes is
-a direct child of the output directory (or, for case.json, of the directory named by the user). -/
-def PathsUnderFull : Prop :=
-  ∀ (o : Opts) (r : Ready) (ex : List Str) (es : List Entry), r.outDir ≠ [] → o.directory ≠ [] →
-    ∀ f ∈ writtenFiles o r ex es, Under r.outDir f ∨ Under o.directory f
-
-/-- witness: `-d o -p ../x` writes `o/../x.txt`, i.e. `./x.txt` next to the output directory -/
-theorem paths_under_counterexample : ¬ PathsUnderFull := by
-  intro h
-  have := h { directory := ['o'], filePrefix := ['.', '.', '/', 'x'] }
-    { outDir := ['o'], filePrefix := ['.', '.', '/', 'x'], exportTypes := [.text], walName := [], rjName := [],
-      walOpened := false, rjOpened := false, exempted := false }
-    [] [{ name := ['t'], tableOrIndex := true, sigEligible := true }] (by decide) (by decide)
-    ['o', '/', '.', '.', '/', 'x', '.', 't', 'x', 't'] (by decide)
-  have key : ¬ Under ['o'] ['o', '/', '.', '.', '/', 'x', '.', 't', 'x', 't'] := by
-    rintro ⟨leaf, hn, _, h1 | ⟨h2, _⟩⟩
-    · have : leaf = ['.', '.', '/', 'x', '.', 't', 'x', 't'] := by simpa using h1.symm
-      subst this
-      exact hn (by decide)
-    · simp at h2
-  rcases this with h1 | h1 <;> exact key h1
-
-/-- PARTIAL: with a prefix and entry names that contain no '/', it holds -/
-theorem paths_under_partial (o : Opts) (r : Ready) (ex : List Str) (es : List Entry)
-    (hd : r.outDir ≠ []) (hdir : o.directory ≠ []) (hp : NoSep r.filePrefix) (hn : ∀ e ∈ es, NoSep e.name) :
+/-- every file written by a run that passed validation is a direct child of the output directory (case.json:
+of the directory the user named) — for every prefix (one containing a path separator is refused, the default
+is a base name), every table name (the CSV file name replaces `os.sep`) and every journal name.
+(Before 430cb54 / ccb6063 this was false: `-p ../x` wrote next to the output directory, a table named
+`/../../esc` steered the CSV file out of it; both inputs stay in corpus/C04.) -/
+theorem paths_under (o : Opts) (i : Input) (w : World) (r : Ready) (eff : List Effect)
+    (ex : List Str) (es : List Entry) (h : validate o i w = .ready r eff) (hd : r.outDir ≠ []) :
     ∀ f ∈ writtenFiles o r ex es, Under r.outDir f ∨ Under o.directory f := by
-  exact Proofs.Cli.written_files_under o r ex es hd hdir hp hn
+  exact Proofs.Cli.written_files_under_ready o i w r eff ex es h hd
 
--- non-vacuity of `paths_under_partial`: a default-prefix CSV + text run: the text file (opened, then written for the entry) and one CSV file
+/-- … and without `--directory` nothing is written at all -/
+theorem no_directory_no_files (o : Opts) (i : Input) (w : World) (r : Ready) (eff : List Effect)
+    (ex : List Str) (es : List Entry) (h : validate o i w = .ready r eff) (hd : r.outDir = []) :
+    writtenFiles o r ex es = [] := by
+  exact Proofs.Cli.no_directory_no_files o i w r eff ex es h hd
+
+/-- the prefix `main` settles on never contains a path separator -/
+theorem prefix_has_no_separator (o : Opts) (i : Input) (w : World) (r : Ready) (eff : List Effect)
+    (h : validate o i w = .ready r eff) : NoSep r.filePrefix := by
+  exact Proofs.Cli.ready_prefix_noSep o i w r eff h
+
+-- non-vacuity: a run with a table whose name contains '/' passes validation and writes beneath `o`
+example : validate { directory := ['o'], exports := [.text, .csv] } { sqlitePath := ['/', 'e', '/', 'a', '.', 'd', 'b'] }
+    { pathExists := fun p => p == ['/', 'e', '/', 'a', '.', 'd', 'b'], size := fun _ => 4096, mkdirOk := fun _ => true }
+    = .ready { outDir := ['o'], filePrefix := ['a', '.', 'd', 'b'], exportTypes := [.text, .csv], walName := [],
+               rjName := [], walOpened := false, rjOpened := false, exempted := false } [.mkdir ['o']] := by decide
+
 example : writtenFiles { directory := ['o'], exports := [.text, .csv] }
     { outDir := ['o'], filePrefix := ['a', '.', 'd', 'b'], exportTypes := [.text, .csv], walName := [], rjName := [],
       walOpened := false, rjOpened := false, exempted := false } []
-    [{ name := ['t'], tableOrIndex := true, sigEligible := true }]
+    [{ name := ['a', '/', 'b'], tableOrIndex := true, sigEligible := true }]
     = [['o', '/', 'a', '.', 'd', 'b', '.', 't', 'x', 't'], ['o', '/', 'a', '.', 'd', 'b', '.', 't', 'x', 't'],
-       ['o', '/', 'a', '.', 'd', 'b', '-', 't', '.', 'c', 's', 'v']] := by decide
+       ['o', '/', 'a', '.', 'd', 'b', '-', 'a', '_', 'b', '.', 'c', 's', 'v']] := by decide
 
-/-- the default prefix is the base name of the input, which never contains '/' -/
-theorem default_prefix_has_no_separator (o : Opts) (i : Input) (w : World) (r : Ready) (eff : List Effect)
-    (hp : o.filePrefix = []) (h : validate o i w = .ready r eff) : NoSep r.filePrefix := by
-  rw [Proofs.Cli.prefix_default o i w r eff hp h]
-  exact Proofs.Cli.noSep_baseName _
+-- the former witness is now refused before anything is created
+example : validate { directory := ['o'], filePrefix := ['.', '.', '/', 'x'] } { sqlitePath := ['d'] }
+    { pathExists := fun p => p == ['d'], size := fun _ => 100, mkdirOk := fun _ => true }
+    = .refuse .prefixHasSeparator [] := by decide
 
 end SqliteDissect.Properties.C04
